@@ -477,23 +477,31 @@ var c08Unfenced = map[string]string{
 func c08Fencing(r *Run, m *ServerModel) {
 	n := 0
 	for _, b := range m.Backend {
+		// (a call made for the handler by a helper that is handed the File is judged by what
+		// the handler has established when it calls the helper)
+		root, st, pos := b.Site.Root, b.Site.St, b.Site.Call.Pos()
 		if b.Outer != nil {
-			continue
+			root, st, pos = b.Outer.Root, b.Outer.St, b.Outer.Call.Pos()
+			if _, tabled := c08Fenced[root.Key][b.Method]; !tabled {
+				continue
+			}
 		}
-		root := b.Site.Root
 		h := m.handlerInfo(root)
 		if fields, ok := c08Fenced[root.Key][b.Method]; ok {
 			for _, f := range fields {
 				n++
 				g := Guard{"deleted " + f, []Lit{L(true, "$"+f+".isDeleted()")}, 22}
-				ok, detail := m.checkGuard(h, b.Site.St, g, m.exitsDeep(root))
+				ok, detail := m.checkGuard(h, st, g, m.exitsDeep(root))
 				key := fmt.Sprintf("%s: fenced on %s", b.Key(), f)
 				if ok {
-					r.ok("r4", key, b.Site.Call.Pos(), "%s", detail)
+					r.ok("r4", key, pos, "%s", detail)
 				} else {
-					r.fail("r4", key, b.Site.Call.Pos(), "%s", detail)
+					r.fail("r4", key, pos, "%s", detail)
 				}
 			}
+		}
+		if b.Outer != nil {
+			continue
 		}
 		if meth, ok := c08Unfenced[root.Key]; ok && meth == b.Method {
 			n++
@@ -514,7 +522,7 @@ func c08Fencing(r *Run, m *ServerModel) {
 		for meth := range byM {
 			found := false
 			for _, b := range m.Backend {
-				if fi != nil && b.Site.Root == fi && b.Method == meth && b.Outer == nil {
+				if fi != nil && b.Method == meth && (b.Outer == nil && b.Site.Root == fi || b.Outer != nil && b.Outer.Root == fi) {
 					found = true
 				}
 			}
